@@ -204,6 +204,27 @@ def check(rng, deep):
         if (sorted(d1.inputs), sorted(d1.outputs)) != want_all or (sorted(d2.inputs), sorted(d2.outputs)) != want_some or (sorted(d3.inputs), sorted(d3.outputs)) != want_some:
             C.push(out, dict(what=f'the interface of a block derived from a {label} depends on which other blocks were derived from the same base before', input=inp,
                              observed=dict(second=sorted(d2.inputs), removed=sorted(d3.inputs)), expected=dict(inputs=want_some[0]), signature=dict(op='history-dependence', block=label, call='add_hetinputs')))
+    # stages: attaching a heterogeneous output function that needs NEW inputs to a stage derives a new stage; the stage it was derived from (and any StageBlock
+    # built from it earlier) keeps its interface, and a block rebuilt from the same stage afterwards is the same as before
+    from sequence_jacobian.blocks.stage_block import StageBlock
+    from sequence_jacobian.blocks.support.stages import Continuous1D, ExogenousMaker
+    n += 1
+    def taxed(c, tau_c, floor_a):
+        ctax = tau_c * c + 0.0 * floor_a
+        return ctax
+    st = Continuous1D(backward='Va', policy='a', f=hm.household_new, name='stage1')
+    blk0 = StageBlock([ExogenousMaker('Pi', 0, 'stage0'), st], name='hh_aud', backward_init=hm._hh_init, hetinputs=(hm.pair_grids, hm.pair_income, hm.alter_Pi))
+    st_before, blk_before, in_before = snap(st), snap(blk0), sorted(blk0.inputs)
+    st2 = st.add_hetoutputs([taxed])
+    st3 = st2.remove_hetoutputs(['taxed']) if hasattr(st2, 'remove_hetoutputs') and False else st2      # removing the last hetoutput raises upstream (noticed, outside the properties)
+    blk1 = StageBlock([ExogenousMaker('Pi', 0, 'stage0'), st], name='hh_aud', backward_init=hm._hh_init, hetinputs=(hm.pair_grids, hm.pair_income, hm.alter_Pi))
+    inp = dict(kind='audit', call='Stage.add_hetoutputs history')
+    if snap(st) != st_before or snap(blk0) != blk_before or sorted(blk0.inputs) != in_before:
+        C.push(out, dict(what='attaching a heterogeneous output function to a stage changed the stage it was derived from (or a StageBlock built from it earlier)', input=inp,
+                         observed=dict(stage_inputs=sorted(st.inputs), block_inputs=sorted(blk0.inputs)), expected=dict(block_inputs=in_before), signature=dict(op='block-mutated', call='Stage.add_hetoutputs')))
+    if sorted(blk1.inputs) != in_before or not {'tau_c', 'floor_a'} <= set(st2.inputs) or {'tau_c', 'floor_a'} & set(st.inputs):
+        C.push(out, dict(what='a StageBlock rebuilt from the same stage after another stage was derived from it has a different interface (history dependence), or the derived stage lacks the new inputs', input=inp,
+                         observed=dict(rebuilt=sorted(blk1.inputs), derived_stage=sorted(st2.inputs)), expected=dict(rebuilt=in_before), signature=dict(op='history-dependence', call='Stage.add_hetoutputs')))
     # bounded multivariate solves: the penalised residual remembers its last valid value; that memory belongs to ONE wrapper / ONE solve
     from sequence_jacobian.blocks.support import steady_state as sst
     nr = np.random.default_rng(rng.randint(0, 2 ** 31))
